@@ -355,3 +355,6 @@ func errStr(err error) string {
 	}
 	return err.Error()
 }
+
+// GDiff is FirstDiff with array indices replaced by "*" (for stable signatures).
+func GDiff(a, b []byte) string { return GenericPtr(FirstDiff(a, b)) }
